@@ -60,3 +60,57 @@ Section Locks.
   Theorem ordered_locks_no_deadlock : forall c, lreach lock rank c -> ~ deadlocked c.
   Proof. intros c H. apply ordered_not_deadlocked. now apply reach_ordered. Qed.
 End Locks.
+
+(* ---- lock INSTANCES: class and wrapping depth.
+   Objects of one class can be stacked (a Flushable whose parent is a Flushable: memorydb over devnull, vecengine
+   over that, the stores of a SyncedPool): the wrapper's lock is taken first, the parent's inside it.  With the
+   ASSUMPTION that wrapping is acyclic and at most D deep, rank = class * D + depth increases along both kinds of
+   pairs lockscan reports: (class a, class b) with a < b, and (class c, the same class one level deeper). *)
+Definition inst_rank (D class_rank depth : nat) : nat := class_rank * D + depth.
+
+Lemma inst_rank_class : forall D ca cb da db, ca < cb -> da < D -> inst_rank D ca da < inst_rank D cb db.
+Proof. intros D ca cb da db Hc Hd. unfold inst_rank. nia. Qed.
+Lemma inst_rank_depth : forall D c d, inst_rank D c d < inst_rank D c (S d).
+Proof. intros; unfold inst_rank; lia. Qed.
+
+(* non-vacuity with contention: thread 1 holds the parent store's lock; thread 0 holds the wrapper's lock and
+   waits for the parent's.  Reachable, ordered, hence not deadlocked. *)
+Definition sf_rank (m : nat * nat) : nat := inst_rank 10 (fst m) (snd m).
+Definition sf_c1 : lconfig (nat * nat) := mklc _ (fun _ => []) (fupd (fun _ => None) 1 (Some ((4, 1), MExcl))).
+Definition sf_c2 : lconfig (nat * nat) := mklc _ (fupd (lheld _ sf_c1) 1 [((4, 1), MExcl)]) (fupd (lwants _ sf_c1) 1 None).
+Definition sf_c3 : lconfig (nat * nat) := mklc _ (lheld _ sf_c2) (fupd (lwants _ sf_c2) 0 (Some ((4, 0), MExcl))).
+Definition sf_c4 : lconfig (nat * nat) := mklc _ (fupd (lheld _ sf_c3) 0 [((4, 0), MExcl)]) (fupd (lwants _ sf_c3) 0 None).
+Definition sf_c5 : lconfig (nat * nat) := mklc _ (lheld _ sf_c4) (fupd (lwants _ sf_c4) 0 (Some ((4, 1), MExcl))).
+
+Lemma sf_reach : lreach (nat * nat) sf_rank sf_c5.
+Proof.
+  assert (R1 : lreach _ sf_rank sf_c1).
+  { apply lr_step with (c := (linit _)) (a := LWant _ 1 (4, 1) MExcl); [apply lr_init|].
+    apply (ls_want _ sf_rank (linit _) 1 (4, 1) MExcl); [reflexivity|intros m' md' []]. }
+  assert (R2 : lreach _ sf_rank sf_c2).
+  { apply lr_step with (c := sf_c1) (a := LGrant _ 1); [exact R1|].
+    apply (ls_grant _ sf_rank sf_c1 1 (4, 1) MExcl); [reflexivity|].
+    intros t' Hne [md' [H _]]. simpl in H. contradiction. }
+  assert (R3 : lreach _ sf_rank sf_c3).
+  { apply lr_step with (c := sf_c2) (a := LWant _ 0 (4, 0) MExcl); [exact R2|].
+    apply (ls_want _ sf_rank sf_c2 0 (4, 0) MExcl); [reflexivity|intros m' md' []]. }
+  assert (R4 : lreach _ sf_rank sf_c4).
+  { apply lr_step with (c := sf_c3) (a := LGrant _ 0); [exact R3|].
+    apply (ls_grant _ sf_rank sf_c3 0 (4, 0) MExcl); [reflexivity|].
+    intros t' Hne [md' [H _]]. simpl in H. unfold fupd in H.
+    destruct t' as [|[|t']]; simpl in H; try contradiction.
+    destruct H as [H|[]]. inversion H. }
+  apply lr_step with (c := sf_c4) (a := LWant _ 0 (4, 1) MExcl); [exact R4|].
+  apply (ls_want _ sf_rank sf_c4 0 (4, 1) MExcl); [reflexivity|].
+  intros m' md' H. simpl in H. unfold fupd in H. simpl in H. destruct H as [H|[]]. inversion H; subst.
+  unfold sf_rank, inst_rank; simpl; lia.
+Qed.
+
+Example stacked_flushables_contention :
+  lreach (nat * nat) sf_rank sf_c5 /\
+  lwants _ sf_c5 0 = Some ((4, 1), MExcl) /\ In ((4, 1), MExcl) (lheld _ sf_c5 1) /\
+  In ((4, 0), MExcl) (lheld _ sf_c5 0) /\ ~ deadlocked (nat * nat) sf_c5.
+Proof.
+  split; [exact sf_reach|]. split; [reflexivity|]. split; [now left|]. split; [now left|].
+  exact (ordered_locks_no_deadlock _ sf_rank sf_c5 sf_reach).
+Qed.
